@@ -87,7 +87,7 @@ impl Run {
             cw20 = s(st, "denom") == "cw20";
             w.app.init_modules(|router, _, storage| {
                 for u in &users {
-                    router.bank.init_balance(storage, u, vec![Coin::new(RICH, STK), Coin::new(RICH, OTH)]).unwrap();
+                    router.bank.init_balance(storage, u, vec![Coin::new(RICH, "USTK"), Coin::new(RICH, STK), Coin::new(RICH, OTH)]).unwrap();
                 }
             });
             let tok_id = w.app.store_code(crate::ics20::FlakyToken::boxed());
@@ -139,7 +139,7 @@ impl Run {
             wdiv = 1u128 << wlog;
             let max_w = (u64::MAX as u128) / wdiv;
             cfgv["maxW"] = json!(if max_w < (1 << 30) { max_w as i64 } else { -1 });
-            let members: Vec<Member> = cfg["members"].as_array().unwrap().iter().map(|m| Member { addr: w.addr(&s(m, "a")).to_string(), weight: ((n(m, "w") as u128) * wdiv).min(u64::MAX as u128) as u64 }).collect();
+            let members: Vec<Member> = cfg["members"].as_array().unwrap().iter().map(|m| Member { addr: if s(m, "a") == "invalid" { "not-an-address".to_string() } else { w.addr(&s(m, "a")).to_string() }, weight: ((n(m, "w") as u128) * wdiv).min(u64::MAX as u128) as u64 }).collect();
             let msg = cw4_group::msg::InstantiateMsg { admin, members };
             let code = w.app.store_code(group_code());
             r = call(&mut w, |w| {
@@ -322,6 +322,8 @@ impl Run {
                     let funds: Vec<Coin> = match token.as_str() {
                         "good" => coins(amt, STK),
                         "otherdenom" => coins(amt, OTH),
+                        // a different denomination whose name differs from the staked one only in case
+                        "lookalike" => coins(amt, "USTK"),
                         "two" => vec![Coin::new(amt, OTH), Coin::new(amt, STK)],
                         _ => vec![],
                     };
@@ -428,6 +430,10 @@ pub fn rand_cfg(rng: &mut Rng) -> Value {
             let d = members[0].clone();
             members.push(d);
         }
+        if rng.chance(1, 15) {
+            // an entry whose address does not validate: the whole instantiate must be refused
+            members.push(json!({"a":"invalid","w":rng.range(1, top)}));
+        }
         json!({"flavour":"group","admin":admin,"members":members,"wscale":wscale})
     }
 }
@@ -461,7 +467,7 @@ pub fn random_run(rng: &mut Rng, run_no: u64, len: usize, out: &mut Out) {
             0..=24 => {
                 let staked = obs["stake"][&who].as_i64().unwrap_or(0);
                 let _ = staked;
-                let token = if run.cw20 { *rng.pick(&["good", "good", "good", "good", "othercw20", "native"]) } else { *rng.pick(&["good", "good", "good", "good", "otherdenom", "two", "none", "goodcw20"]) };
+                let token = if run.cw20 { *rng.pick(&["good", "good", "good", "good", "othercw20", "native"]) } else { *rng.pick(&["good", "good", "good", "good", "good", "otherdenom", "lookalike", "two", "none", "goodcw20"]) };
                 let big = run.sc.u > 1 && run.wdiv > 1 && rng.chance(1, 3);
                 let amt = if big { rng.range(10, 40) } else { rng.range(0, 7) };
                 json!({"act":"bond","by":who,"args":{"amt":amt,"token":token}})
